@@ -11,25 +11,27 @@ import (
 )
 
 type zzvTx struct {
-	orig      mem.AccessReq
-	inside    bool // came from inside (L1) and goes out; otherwise outside-in
-	isWrite   bool
-	addr      uint64
-	data      []byte
-	forwarded bool
-	fwdID     string
-	replied   bool
-	rspData   []byte
-	answered  bool
+	orig       mem.AccessReq
+	inside     bool // came from inside (L1) and goes out; otherwise outside-in
+	isWrite    bool
+	addr       uint64
+	data       []byte
+	forwarded  bool
+	fwdID      string
+	replied    bool
+	rspData    []byte
+	answered   bool
 	afterDrain bool
 }
 
 type zzvRdmaEnv struct {
-	c        *Comp
-	txs      []*zzvTx
-	draining bool // a DrainReq was delivered and not yet restarted
-	drainAck bool
+	c           *Comp
+	txs         []*zzvTx
+	draining    bool // a DrainReq was delivered and not yet restarted
+	drainAck    bool
 	restartSent bool
+	slow        bool // the requesters read their responses only every third step (back-pressure on the response ports)
+	readNow     bool
 }
 
 func (e *zzvRdmaEnv) inject(inside bool) {
@@ -104,7 +106,11 @@ func (e *zzvRdmaEnv) drainPorts() {
 					inflight = true
 				}
 			}
-			verif.Assert(!inflight, "drain was acknowledged while a remote transaction was still in flight")
+			// with slow requesters a response may already sit in the port's
+			// outgoing buffer (emitted, not yet read): "answered" is then not
+			// observable here, so the drain condition is only checked when
+			// the requesters read every step
+			verif.Assert(e.slow || !inflight, "drain was acknowledged while a remote transaction was still in flight")
 			verif.Assert(e.draining, "drain acknowledged without a drain request")
 			e.drainAck = true
 		case *RestartRsp:
@@ -135,8 +141,10 @@ func (e *zzvRdmaEnv) drainPorts() {
 			verif.Fail("unexpected message on the inside data port")
 		}
 	}
-	e.responses(e.c.RDMARequestInside, true, "L1")
-	e.responses(e.c.RDMADataOutside, false, "RemoteRDMA")
+	if !e.slow || e.readNow {
+		e.responses(e.c.RDMARequestInside, true, "L1")
+		e.responses(e.c.RDMADataOutside, false, "RemoteRDMA")
+	}
 }
 
 func (e *zzvRdmaEnv) responses(p sim.Port, inside bool, wantDst sim.RemotePort) {
@@ -196,12 +204,13 @@ func (e *zzvRdmaEnv) reply(t *zzvTx) {
 // VerifRDMA explores K environment steps, then lets a fair environment finish.
 func VerifRDMA() {
 	eng := simstub.NewEngine()
-	c := MakeBuilder().WithEngine(eng).WithBufferSize(2).
+	c := MakeBuilder().WithEngine(eng).WithBufferSize(1 + verif.Choice(2)).
 		WithLocalModules(&mem.SinglePortMapper{Port: "L2"}).WithRemoteModules(&mem.SinglePortMapper{Port: "RemoteRDMA"}).Build("RDMA")
 	for _, p := range []sim.Port{c.RDMARequestInside, c.RDMARequestOutside, c.RDMADataInside, c.RDMADataOutside, c.CtrlPort} {
 		p.SetConnection(simstub.NewConn("conn"))
 	}
 	e := &zzvRdmaEnv{c: c}
+	e.slow = verif.Choice(2) == 1
 	K := verif.Param("steps", 6)
 	maxTx := verif.Param("maxTx", 3)
 	withDrain := verif.Param("drain", 1) == 1
@@ -245,8 +254,10 @@ func VerifRDMA() {
 			}
 		}
 		c.Tick()
+		e.readNow = step%3 == 2
 		e.drainPorts()
 	}
+	e.readNow = true
 	// fair completion: restart if draining, answer everything
 	for i := 0; i < 10*maxTx+12; i++ {
 		if e.draining && e.drainAck && !e.restartSent {
